@@ -272,7 +272,7 @@ def gen_cases(seed, chunk, n, tier):
 
 
 def run(ctx):
-    n = 800 if ctx.tier == "quick" else 16000
+    n = 4000 if ctx.tier == "quick" else 30000
     stream.run_stream(ctx, "factor", "harness.props.c11", "gen_cases", n, per_chunk=50,
                       canon_kw=dict(structure=True), raise_kinds=False)
 
